@@ -92,6 +92,21 @@ def gen_scenario(rng, tier, eager_input=False):
             sc.ops.append(("send_commands", [rng.choice(cmds) for _ in range(rng.randint(1, 3))], rng.random() < 0.7))
         else:
             sc.ops.append(gen_interactive(rng, sc))
+    if rng.random() < 0.12 and not sc.echo_junk and not sc.prompts:
+        # an operation given up while the device is silent in the middle of its output (timeout with the connection kept, cancelled
+        # task); the device then prints the rest: the following operations must again return exactly their own output
+        long_cmds = [c for c in cmds if len(sc.outputs[c.strip()].encode()) >= 4]
+        if long_cmds:
+            c = rng.choice(long_cmds)
+            n = rng.randint(1, len(sc.outputs[c.strip()].encode()) - 1)
+            at = rng.randint(0, len(sc.ops))
+            # the next input must not occur in what the device still has to print (its echo is searched for in everything that
+            # arrives; a device output containing the next command verbatim is outside the property's quantifier)
+            sq = lambda x: "".join(x.lower().split())
+            rest = sq(sc.outputs[c.strip()] + sc.hostname + sc.user)
+            follow = [x for x in cmds if len(sq(x)) >= 4 and sq(x) not in rest]
+            if follow:
+                sc.ops[at:at] = [("abandon", c, n), ("send_command", rng.choice(follow), rng.random() < 0.7, False)]
     if rng.random() < 0.1:
         # the interactive session ends on an interaction_complete_pattern instead of the expected response: the remaining
         # inputs must not be sent (last operation of the scenario: the device is left at its question)
@@ -194,6 +209,9 @@ def oracle(sc, res):
                 problems.append(f"get_prompt returned {got!r}, device prompt is {dev.prompt()!r}")
         elif op[0] == "send_command":
             problems += check_single(dev, op[1], op[2], got, trailing)
+        elif op[0] == "abandon":
+            if got[0] != "ABANDONED":
+                problems.append(f"send_command({op[1]!r}) returned although the device had printed only {op[2]} bytes of its response and no prompt")
         elif op[0] == "send_commands":
             if len(got) != len(op[1]):
                 problems.append("send_commands returned wrong number of responses")
@@ -336,7 +354,7 @@ def run(tier, seed):
         nontriv = any(v for v in sc.outputs.values())
         ck.case(json.dumps(sc.describe(), sort_keys=True, default=str), nontrivial=nontriv, sample=sc.describe() if len(json.dumps(sc.describe(), default=str)) < 1500 else None,
                 tags=(sc.platform, sc.stack, "cuts=" + ("whole" if not sc.cuts else "1byte" if set(sc.cuts) == {1} else "fixed" if len(set(sc.cuts)) == 1 else "random"),
-                      f"depth={sc.depth or 1000}", "nl=" + sc.nl.hex(), "maxout=" + _bucket(max([len(v) for v in sc.outputs.values()] + [0]), sc.depth or 1000)))
+                      f"depth={sc.depth or 1000}", "nl=" + sc.nl.hex(), *(("abandoned-op",) if any(o[0] == "abandon" for o in sc.ops) else ()), "maxout=" + _bucket(max([len(v) for v in sc.outputs.values()] + [0]), sc.depth or 1000)))
         probs = oracle(sc, res)
         if probs:
             ck.violation({"scenario": sc.describe(), "problems": probs[:5]}, "; ".join(probs[:2]), matcher)
